@@ -44,7 +44,8 @@ def c04(tier, seed):
     rel.negative_control("C04", res, module="Trace_Regex")
     res.cov["rule"] = ("episodes = random walks of the real engine over a random surface regex (all operators, three entry "
                        "points) and a small vocabulary; TLC recomputes every mask / verdict / forced byte from the regex "
-                       "by derivatives (spec/Trace_Regex.tla); distinct = distinct recorded episodes")
+                       "by derivatives (spec/Trace_Regex.tla); distinct = distinct recorded episodes; a fifth of the small-alphabet "
+                       "episodes walk every allowed byte string up to a depth bound instead (exhaustive_walk_nodes)")
     return res
 
 
@@ -70,7 +71,10 @@ def c05(tier, seed):
                        "(permutation, at-least-once, bounded counters, bounded a*b*, pick k of n, countdown with "
                        "decr/bit_or/bit_and/not/or, nested with nullable instances), each with a vocabulary of tokens spanning "
                        "its terminals; TLC recomputes every mask / verdict with Earley item sets over bytes "
-                       "(spec/Cfg.tla + Trace_Cfg.tla; spec/CfgP.tla + Trace_CfgP.tla, items carry the parameter value)")
+                       "(spec/Cfg.tla + Trace_Cfg.tla; spec/CfgP.tla + Trace_CfgP.tla, items carry the parameter value); about a fifth of "
+                       "the episodes are exhaustive instead of random: every byte string up to a depth bound that the masks "
+                       "allow is walked with commit / rollback (single-byte tokens), mask and accepting flag checked at every "
+                       "node (exhaustive_walk_nodes)")
     return res
 
 
